@@ -116,7 +116,8 @@ def check(case):
         return {(NODES[i][1] if use_vpc else NODES[i][0], NODES[i][2]) for i in idxs}
 
     with virtual_time(w.clock):
-        w.advertise(1, steps[0])
+        vbase = case.get("version_base", 1)
+        w.advertise(vbase, steps[0])
         r = bracket(lambda: AWSElastiCacheHashClient(CFG, socket_module=w.net, use_vpc=use_vpc, use_pooling=case.get("pooling", False),
                                                      default_noreply=False, timeout=1, retry_attempts=case.get("retry_attempts", 2)))
         if r[0] == "exc":
@@ -140,7 +141,7 @@ def check(case):
                             bracket(hc.get, "probe-%d-%d" % (si, kk))          # errors are expected here and not judged
                     for j in down:
                         w.nodes[j].down = None
-                w.advertise(1 + si, idxs)
+                w.advertise(vbase + si, idxs)
                 r = bracket(hc.reconfigure_nodes)
                 if r[0] == "exc":
                     raise Violation(["reconfigure-raises", type(r[1]).__name__], "reconfigure_nodes raised %r at step %d: %s" % (r[1], si, desc))
@@ -213,6 +214,10 @@ def fixed_history_cases(tier, seed):
         for vpc in (True, False):
             for pooling in (False, True):
                 yield {"steps": h, "use_vpc": vpc, "pooling": pooling, "nkeys": 60}
+    # the configuration version the endpoint reports grows with every topology change and crosses digit boundaries
+    for vb in (7, 8, 9, 97, 98, 99, 998, 4294967294):
+        for h in ([[0, 1, 2], [0, 1, 2, 3], [1, 4], [4]], [[0], [1], [2], [0, 1, 2]]):
+            yield {"steps": h, "use_vpc": bool(vb % 2), "pooling": False, "nkeys": 60, "version_base": vb}
     # a node fails (and is marked failing / dead by traffic), heals, and discovery runs again
     for h, fb in [([[0, 1, 2], [0, 1, 2]], {"1": [1]}), ([[0, 1, 2], [0, 1, 2, 3]], {"1": [0, 2]}), ([[0, 1], [1], [0, 1]], {"1": [0], "2": [1]}),
                   ([[0, 1, 2], [0, 1, 2], [0, 1, 2]], {"1": [0, 1, 2], "2": [2]}), ([[4, 5], [4, 5]], {"1": [5]})]:
@@ -227,7 +232,7 @@ def history_strategy(tier):
     fb = st.dictionaries(st.sampled_from(["1", "2", "3"]), st.lists(st.integers(0, 7), min_size=1, max_size=3, unique=True), max_size=2)
     return st.fixed_dictionaries({"steps": st.lists(nodes, min_size=1, max_size=6), "use_vpc": st.booleans(), "pooling": st.booleans(),
                                   "nkeys": st.sampled_from([20, 60, 200]), "schedule": sched, "fail_before": fb,
-                                  "retry_attempts": st.sampled_from([0, 1, 2])})
+                                  "retry_attempts": st.sampled_from([0, 1, 2]), "version_base": st.sampled_from([1, 1, 8, 9, 98, 99, 65535])})
 
 
 PARTS = [
